@@ -51,7 +51,18 @@ def run_case(case, rec, cid):
             rec.ev("DurParse", cid, gd=gd, text=render.codes(text), ok=False, cls=type(v).__name__, q=proj_dur(None), text2=[], eq2=False, text3=[])
         return True
     if k == "obj":
-        d = mk_dur(case["d"])
+        if "sum" in case:
+            d = mk_dur(case["sum"][0])
+            for part in case["sum"][1:]:
+                d = d + mk_dur(part)
+            d = d * case.get("times", 1)
+        elif case.get("big"):
+            # one whole-number component only, the others left at the constructor's defaults (beyond 2**53 the library's own
+            # == is float arithmetic, so an explicit int 0 next to a default 0.0 would already compare unequal)
+            from harness.common import Duration as _D
+            d = _D(**{{"y": "years", "mo": "months", "d": "days", "w": "weeks"}[k_]: v_ for k_, v_ in case["d"].items()})
+        else:
+            d = mk_dur(case["d"])
 
         def g():
             s = str(d)
@@ -136,6 +147,21 @@ def expand(job):
             # single-signed Duration objects: each unit absent / zero / present, integer and decimal, weeks
             if rnd.random() < 0.12:
                 yield {"kind": "obj", "d": {"w": rnd.choice([1, -1, 2, -52, rnd.randint(-500, 500)])}}
+                continue
+            if rnd.random() < 0.05:
+                # whole-number components beyond what a double holds exactly (2**53): they must survive the text form digit for digit
+                big = rnd.choice([2 ** 53 + 1, 2 ** 53 + 3, 10 ** 17 + 1, 2 ** 63 + 11, 123456789012345678901])
+                sg_ = rnd.choice([1, -1])
+                k_ = rnd.choice(["y", "mo", "d", "w"])
+                yield {"kind": "obj", "d": {k_: sg_ * big}, "big": True}
+                continue
+            if rnd.random() < 0.10:
+                # Durations that are the RESULT of arithmetic (week form + unit form in either order, sums, multiples)
+                sg_ = rnd.choice([1, -1])
+                parts = [rnd.choice([{"w": sg_ * rnd.randint(1, 9)}, {"y": sg_ * rnd.randint(0, 3), "mo": sg_ * rnd.randint(0, 14)},
+                                     {"d": sg_ * rnd.randint(0, 40), "h": sg_ * rnd.randint(0, 30)}, {"mo": sg_ * 1, "h": sg_ * 1.5},
+                                     {"w": sg_ * 1}, {"s": sg_ * rnd.randint(0, 100000)}]) for _ in range(rnd.choice([2, 2, 3]))]
+                yield {"kind": "obj", "sum": parts, "times": rnd.choice([1, 1, 2, 3])}
                 continue
             sg = rnd.choice([1, 1, -1])
             d = {}
